@@ -237,6 +237,12 @@ func (sw *sweepResult) finish(eng *Engine, verif string, update bool) {
 		if sw.known(verif, o) {
 			continue
 		}
+		// nil-ness of pointer/interface fields is where data-structure invariants live: a replay that builds the receiver
+		// from a model may crash only because the model violates such an invariant. New nil-class obligations are
+		// therefore never reported from the zero-annotation sweep (they are when the function is under a `safety` contract).
+		if strings.HasPrefix(o.Label, "nil-") {
+			continue
+		}
 		r := &ReplayRecord{Property: sw.prop, Obligation: o.ID, Kind: o.Kind, Clause: o.Src, Function: o.Fn, Position: o.Pos.String(), Result: o.Result, Solver: o.Solver}
 		tryReplay(eng, verif, o, r)
 		if r.Reproduced {
